@@ -621,6 +621,22 @@ func (in *interp) http(s *Service, m *Method) {
 		for _, p := range h.MorePaths {
 			verb(p)
 		}
+		for _, vr := range h.MoreRoutes {
+			if len(vr) == 2 {
+				switch vr[0] {
+				case "GET":
+					dsl.GET(vr[1])
+				case "POST":
+					dsl.POST(vr[1])
+				case "PUT":
+					dsl.PUT(vr[1])
+				case "DELETE":
+					dsl.DELETE(vr[1])
+				case "PATCH":
+					dsl.PATCH(vr[1])
+				}
+			}
+		}
 		for _, p := range h.Params {
 			dsl.Param(mapped(p))
 		}
